@@ -60,8 +60,13 @@ class C04(EvalCheck):
                     if c != o:
                         fails.append(("C04:margin", "left margin: center %d != order %d in dim %d (%s)" % (c, o, d, path)))
                 else:
-                    if c != na - 1:
-                        fails.append(("C04:margin", "upper end/right margin: center %d != naxes-1 = %d in dim %d (%s)" % (c, na - 1, d, path)))
+                    # from knots[naxes] upwards: the last fully supported span, stepping down over zero-width spans on a
+                    # repeated knot until a span of positive width (or index order) is reached
+                    want = na - 1
+                    while want > o and x == k[want]:
+                        want -= 1
+                    if c != want:
+                        fails.append(("C04:margin", "upper end/right margin: center %d != %d (naxes-1 = %d, stepping over zero-width spans) in dim %d (%s)" % (c, want, na - 1, d, path)))
         # call operator: zero when lookup fails, the evaluated value otherwise
         for k, v in iout.items():
             if ".op." in k:
